@@ -12,14 +12,14 @@ Where the Lean client model makes a prediction (Driver/C07.lean prints no `?`), 
 callbacks, requests and framebuffer are compared exactly.
 """
 import json, os, struct, zlib, re
-from .. import common
+from .. import common, build
 from . import c07, c07_enc as E
 
 PROPS_MOD = "VncModel.Props.C08"
 EXTRA_TARGETS = ["drv_c07"]
 GEN = ["c07"]
 
-SAN_RE = re.compile(r"(ERROR: AddressSanitizer: [^\n]*|runtime error: [^\n]*|ERROR: LeakSanitizer[^\n]*|AddressSanitizer:DEADLYSIGNAL)")
+SAN_RE = re.compile(r"(ERROR: AddressSanitizer: [^\n]*|runtime error: [^\n]*|ERROR: LeakSanitizer[^\n]*|AddressSanitizer:DEADLYSIGNAL|SUMMARY: \w+Sanitizer: [^\n]*)")
 
 
 # --------------------------------------------------------------------------------------------
@@ -89,9 +89,11 @@ def hexs(b):
     return b.hex() if b else "-"
 
 
-def build_script(head, eos, hs, pre_msgs, tail_bytes, zlines=(), init_cut=None):
-    """valid prefix message by message, then `feed` the (mutated) tail and `drain`"""
+def build_script(head, eos, hs, pre_msgs, tail_bytes, zlines=(), init_cut=None, reps=(), pre_init=()):
+    """valid prefix message by message, then `feed` the (mutated) tail and `drain`.
+    reps: (unit bytes, count) appended after the tail by `feedrep`; pre_init: lines before `init`"""
     lines = list(head) + ["eos " + eos]
+    lines += list(pre_init)
     lines.append("init " + hexs(hs))
     for zl, m in pre_msgs:
         lines += zl
@@ -99,6 +101,8 @@ def build_script(head, eos, hs, pre_msgs, tail_bytes, zlines=(), init_cut=None):
     lines += list(zlines)
     if tail_bytes is not None:
         lines.append("feed " + hexs(tail_bytes))
+        for unit, cnt in reps:
+            lines.append("feedrep %s %d" % (hexs(unit), cnt))
         lines.append("drain")
     lines.append("stats")
     lines.append("end")
@@ -196,7 +200,7 @@ def gen_cases(rng, lzo, tier):
         head, hs, msgs = split_session(s)
         head = [re.sub(r"fbmode=\d", "fbmode=2", head[0])] + head[1:]
         W, H = s["size"]
-        eos = rng.choice(["eof", "eof", "eagain"])
+        eos = rng.choice(["eof", "eof", "eagain", "flaky"])
         # a session of the known finding cpixel-depth is parsed differently by the library (3-byte CPIXELs):
         # its message boundaries are not the generator's, so "cut inside a message => FALSE" cannot be claimed
         exact_bounds = c07.finding_of(s) is None
@@ -299,7 +303,7 @@ def structured_cases(rng, lzo):
         big = E.fbu([struct.pack(">HHHHI", 0, 0, BW, BH, 0) + rows])
         small = E.fbu([struct.pack(">HHHHI", 0, 0, BW, 6 // bp + 1, 0) + rows[:BW * (6 // bp + 1) * bp]])
         for seg in ("0", "1000", "8192", "8191,1", "4096", "100000"):
-            for eos in ("eof", "eagain"):
+            for eos in ("eof", "eagain", "flaky"):
                 hd = [head2[0] if False else head[0].replace("fbmode=1", "fbmode=2"), "seg " + seg]
                 out.append({"script": build_script(hd, eos, hsb, [], big + small), "kind": "guard", "expect_false": False, "tag": "guard:read-branches"})
                 for cut in (len(big) - 1, len(big) // 2, 8192 + 30, 20, len(big) + 17):
@@ -313,6 +317,8 @@ def structured_cases(rng, lzo):
     out += handshake_cases()
     out += lzo_sequence_cases()
     out += length_field_cases()
+    out += geometry_cases()
+    out += cap_cases()
     return out
 
 
@@ -377,6 +383,111 @@ def length_field_cases():
                             "kind": "guard", "expect_false": None, "tag": "guard:len16:pseudo"})
             out.append({"script": build_script(head, "eof", hs, [], E.fbu([struct.pack(">HHHHI", 0, 0, W, H, E.ENC["extdesktopsize"]) + bytes([w16 & 0xFF, 0, 0, 0]) + junk * 3])),
                         "kind": "guard", "expect_false": None, "tag": "guard:len16:pseudo"})
+    return out
+
+
+def geometry_cases():
+    """boundary inputs of every coordinate computation behind the rectangle guard: sub-rectangles of
+    RRE / CoRRE / Hextile relative to a rectangle at the origin, in the middle and in the far corner
+    (a flipped sign or a dropped CheckRect writes in front of / behind the framebuffer), UltraZip
+    sub-rectangle tables (checked by CheckRect only), CoRRE counts around the scratch-buffer bound
+    WITH all their data (an accepted count one too large writes behind client->buffer)"""
+    out = []
+    F = E.FMT_BY_NAME
+    for fmt in (F["bgr233"], F["rgb565le"], F["rgb888le"]):
+        bp = fmt.bytespp
+        W, H = 24, 12
+        head = ["client %s enc=raw+rre+corre+hextile+ultra cursor=0 fbmode=2" % " ".join(str(v) for v in fmt.tuple()), "seg 0"]
+        hs = E.handshake(F["rgb888le"], W, H, b"G")
+
+        def px(k):
+            return bytes([k & 0x3F]) * bp
+
+        def fb1(x, y, w, h, enc, payload):
+            return E.fbu([struct.pack(">HHHHI", x, y, w, h, enc) + payload])
+        subs = [(0, 0, 1, 1), (3, 0, 2, 1), (0, 3, 1, 2), (5, 2, 3, 4), (W - 1, 0, 1, 1), (0, H - 1, 1, 1), (W - 1, H - 1, 1, 1), (W - 1, H - 1, 2, 1),
+                (W - 1, H - 1, 1, 2), (W, 0, 1, 1), (0, H, 1, 1), (1, 0, W, 1), (0, 1, 1, H), (0, 0, W, H), (255, 255, 255, 255), (0, 255, 1, 255),
+                (255, 0, 255, 1), (0, 0, 0, 0), (7, 7, 0, 1), (1, 1, 255, 1), (1, 1, 1, 255)]
+        for (rx, ry, rw, rh) in [(0, 0, W, H), (2, 1, W - 2, H - 1), (W - 1, H - 1, 1, 1), (0, 0, 1, 1), (0, H - 1, W, 1), (W - 1, 0, 1, H)]:
+            for (x, y, w, h) in subs:
+                out.append({"script": build_script(head, "eof", hs, [], fb1(rx, ry, rw, rh, 4, struct.pack(">I", 1) + px(1) + px(2) + bytes([x, y, w, h]))),
+                            "kind": "guard", "expect_false": None, "tag": "guard:corre-sub"})
+                out.append({"script": build_script(head, "eof", hs, [], fb1(rx, ry, rw, rh, 2, struct.pack(">I", 1) + px(1) + px(2) + struct.pack(">HHHH", x, y, w, h))),
+                            "kind": "guard", "expect_false": None, "tag": "guard:rre-sub"})
+            for (x, y, w, h) in [(65535, 0, 1, 1), (0, 65535, 1, 1), (65535, 65535, 65535, 65535), (32768, 32768, 32768, 32768), (W - 1, H - 1, 65535, 1)]:
+                out.append({"script": build_script(head, "eof", hs, [], fb1(rx, ry, rw, rh, 2, struct.pack(">I", 1) + px(1) + px(2) + struct.pack(">HHHH", x, y, w, h))),
+                            "kind": "guard", "expect_false": None, "tag": "guard:rre-sub"})
+        # Hextile: one coloured sub-rectangle per tile, in every corner of the tile and reaching out of it
+        for (rx, ry, rw, rh) in [(0, 0, W, H), (W - 17, 0, 17, H), (W - 1, H - 1, 1, 1)]:
+            for (x, y, w, h) in [(0, 0, 1, 1), (3, 0, 2, 1), (0, 3, 1, 2), (15, 0, 1, 1), (0, 11, 1, 1), (15, 11, 1, 1), (15, 15, 1, 1), (15, 15, 16, 16),
+                                 (8, 0, 16, 1), (0, 8, 1, 16), (0, 0, 16, 16), (15, 0, 16, 1)]:
+                tiles = b""
+                for ty in range(0, rh, 16):
+                    for tx in range(0, rw, 16):
+                        tiles += bytes([0x02 | 0x08 | 0x10]) + px(1) + bytes([1]) + px(2) + bytes([(x << 4) | y, ((w - 1) << 4) | (h - 1)])
+                out.append({"script": build_script(head, "eof", hs, [], fb1(rx, ry, rw, rh, 5, tiles)), "kind": "guard", "expect_false": None,
+                            "tag": "guard:hextile-sub"})
+        # UltraZip: the sub-rectangle table is NOT covered by the rectangle guard (CheckRect only)
+        def uz(tbl):
+            plain = b"".join(struct.pack(">HHHHI", sx, sy, sw, sh, 0) + bytes((i * 7 + 1) & 0x3F for i in range(min(sw * sh, 600) * bp))
+                             for (sx, sy, sw, sh) in tbl)
+            z = c07.lzo_literal(plain)
+            return E.fbu([struct.pack(">HHHHI", len(tbl), len(plain), 0, 0, E.ENC["ultrazip"]) + struct.pack(">I", len(z)) + z])
+        for t in [(0, 0, W, H), (0, H - 1, 8, 1), (0, H, 8, 1), (0, H - 1, 8, 2), (W - 8, H - 1, 8, 1), (W - 7, H - 1, 8, 1), (W, 0, 1, 1), (0, H, 1, 1),
+                  (65535, 0, 1, 1), (0, 65535, 1, 1), (65535, 65535, 1, 1), (W - 1, H - 1, 1, 1), (W - 1, H - 1, 2, 1), (W - 1, H - 1, 1, 2),
+                  (0, H + 1, W, 1), (0, H - 1, W, 2), (1, H - 1, W, 1), (0, H, W, 1), (0, H + 200, W, 2), (0, 0, 0, 0), (3, 3, 0, 5)]:
+            out.append({"script": build_script(head, "eof", hs, [], uz([t])), "kind": "guard", "expect_false": None, "tag": "guard:ultrazip-sub"})
+            out.append({"script": build_script(head, "eof", hs, [], uz([(1, 1, 3, 2), t, (2, 2, 2, 2)])), "kind": "guard", "expect_false": None,
+                        "tag": "guard:ultrazip-sub"})
+        # CoRRE sub-rectangle counts around RFB_BUFFER_SIZE / (4 + bytes per pixel), all data present
+        cap = 307200 // (4 + bp)
+        for n in (cap - 1, cap, cap + 1, cap + 2, 307200 // (3 + bp), 307200 // (3 + bp) + 1, 307200 // bp, 65536, 76800, 76801, 131072):
+            hdr = E.fbu([struct.pack(">HHHHI", 0, 0, W, H, 4) + struct.pack(">I", n) + px(1)])
+            out.append({"script": build_script(head, "eof", hs, [], hdr, reps=[(px(2) + bytes([1, 1, 2, 2]), n)]), "kind": "guard",
+                        "expect_false": None, "tag": "guard:corre-count-full"})
+    return out
+
+
+def cap_cases():
+    """length caps (failure reason, desktop name, cut text) at cap-1 / cap / cap+1 and at the
+    neighbours of INT_MAX / UINT_MAX, with data behind the length field; framebuffer sizes through
+    the library's own MallocFrameBuffer (fbmode 0)"""
+    out = []
+    F = E.FMT_BY_NAME
+    fmt = F["rgb888le"]
+    head = ["client %s enc=raw cursor=0 fbmode=2" % " ".join(str(v) for v in fmt.tuple()), "seg 0"]
+    hs = E.handshake(fmt, 8, 4, b"g")
+    CAP = 1 << 20
+    lens = [CAP - 1, CAP, CAP + 1, 2 * CAP, 0x7FFFFFFE, 0x7FFFFFFF, 0x80000000, 0x80000001, 0xFFFFFFFE, 0xFFFFFFFF]
+    for ln in lens:
+        data = [(b"R", ln)] if ln <= 2 * CAP else [(b"R", 4096)]
+        for eos in ("eof", "flaky"):
+            # ServerInit name
+            out.append({"script": build_script(head, eos, b"", [], None, pre_init=["feed " + hexs(hs[:18 + 20] + struct.pack(">I", ln))] +
+                                               ["feedrep %s %d" % (hexs(u), c) for u, c in data]),
+                        "kind": "guard", "expect_false": None if ln <= CAP else True, "tag": "guard:name-cap"})
+            # reason after "no security types" (3.8), after a failed SecurityResult (3.8), after scheme 0 (3.3)
+            for pre in (b"RFB 003.008\n" + bytes([0]), b"RFB 003.008\n" + bytes([1, 1]) + struct.pack(">I", 1), b"RFB 003.003\n" + struct.pack(">I", 0)):
+                out.append({"script": build_script(head, eos, b"", [], None, pre_init=["feed " + hexs(pre + struct.pack(">I", ln))] +
+                                                   ["feedrep %s %d" % (hexs(u), c) for u, c in data]),
+                            "kind": "guard", "expect_false": True, "tag": "guard:reason-cap"})
+            # ServerCutText
+            out.append({"script": build_script(head, eos, hs, [], struct.pack(">BxxxI", 3, ln), reps=data), "kind": "guard",
+                        "expect_false": None, "tag": "guard:cut-cap"})
+    # the library's own MallocFrameBuffer (64-bit size computation): sizes up to 65535 x 65535 x 4
+    asan = "detect_leaks=1:abort_on_error=0:allocator_may_return_null=1:max_allocation_size_mb=200"
+    for f2 in (F["bgr233"], F["rgb888le"]):
+        head0 = ["client %s enc=raw cursor=0 fbmode=0" % " ".join(str(v) for v in f2.tuple()), "seg 0"]
+        for (nw, nh) in [(0, 0), (1, 1), (4096, 2048), (65535, 65535), (46341, 46341), (32768, 32768), (65535, 16385), (16384, 65535), (65535, 1)]:
+            if 128 << 20 < nw * nh * f2.bytespp <= 300 << 20:
+                continue
+            m = E.fbu([struct.pack(">HHHHI", 0, 0, nw, nh, E.ENC["newfbsize"])]) + \
+                E.fbu([struct.pack(">HHHHI", max(0, nw - 1), max(0, nh - 1), min(nw, 1), min(nh, 1), 0) + b"\x07" * (min(nw, 1) * min(nh, 1) * f2.bytespp)])
+            out.append({"script": build_script(head0, "eof", hs, [], m), "kind": "guard", "expect_false": None, "tag": "guard:malloc-fb",
+                        "env": {"ASAN_OPTIONS": asan}})
+            h2 = E.handshake(fmt, nw, nh, b"g")
+            out.append({"script": build_script(head0, "eof", h2, [], b""), "kind": "guard", "expect_false": None, "tag": "guard:malloc-fb",
+                        "env": {"ASAN_OPTIONS": asan}})
     return out
 
 
@@ -490,7 +601,7 @@ def wild_equal(a, b):
         return True
     if len(tb) > 1 and tb[-1] == "spec=DIFF":
         tb = tb[:-1]
-    ta = [t for t in ta if t != "CANARY-DAMAGED"]
+    ta = [t for t in ta if t not in ("CANARY-DAMAGED", "SCRATCH-OVERFLOW")]
     if len(ta) != len(tb):
         return False
     for x, y in zip(ta, tb):
@@ -503,18 +614,27 @@ def wild_equal(a, b):
 
 
 def judge(ctx, case, h, d):
-    rc, impl, err = ctx.run_lines(h, case["script"], timeout=90)
+    rc, impl, err = ctx.run_lines(h, case["script"], timeout=90, env=case.get("env"))
+    if rc == 3 and c07.realtime_hang(impl):
+        # the hang detection proper is virtual (polls of the exhausted stream are counted); the real-time
+        # backstop only counts when it fires again in a run of its own with ten times the limit
+        with build.Lock("confirm-hang"):
+            rc, impl, err = ctx.run_lines(h, case["script"], timeout=900, env=dict(case.get("env") or {}, VH_ALARM="600"))
     fails = []
     ops = case["script"].splitlines()
     if rc != 0:
         m = SAN_RE.search(err)
-        what = "HANG (watchdog)" if rc == 3 else (m.group(1)[:200] if m else "harness exit %d" % rc)
+        what = ("HANG: the library call keeps polling the exhausted stream" if impl and impl[-1].strip() == "HANG virtual" else
+                "HANG (watchdog)") if rc == 3 else (m.group(1)[:200] if m else "harness exit %d" % rc)
         fails.append({"kind": "crash", "what": "C08: " + what, "detail": err[-2500:], "script": ops[:60], "impl": impl[-4:],
                       "finding": classify(err, ops) if rc != 3 else None, "tag": case["tag"]})
         return impl, fails, None
     if any("CANARY-DAMAGED" in l for l in impl):
         fails.append({"kind": "oracle", "what": "C08: write outside the framebuffer (canary band damaged)", "script": ops[:60],
                       "impl": impl[-4:], "tag": case["tag"]})
+    if any("SCRATCH-OVERFLOW" in l for l in impl):
+        fails.append({"kind": "oracle", "what": "C08: write past client->buffer[RFB_BUFFER_SIZE] (the field behind it, client->sock, was overwritten)",
+                      "script": ops[:60], "impl": [l[:300] for l in impl[-4:]], "tag": case["tag"]})
     last = [l for l in impl if l.startswith(("init ", "msg ", "calls="))]
     final_false = bool(last) and (" F" in last[-1][:40])
     if case["expect_false"] is True and not final_false:
